@@ -5,7 +5,7 @@
    queue entries are scanned). *)
 From Hub Require Import Base.Prelude Base.Arith Model.Types Model.Keeper Model.Handlers Model.Hooks Model.Step.
 From Hub Require Import Proofs.Tactics Proofs.Sorting Proofs.Frames Proofs.KeysInv Proofs.Lifecycle Proofs.IndexSess Proofs.IndexNode
-  Proofs.InvDefs Proofs.IndexSub Proofs.IndexSub2 Proofs.IndexAll Proofs.Link Proofs.Witness.
+  Proofs.InvDefs Proofs.IndexSub Proofs.IndexSub2 Proofs.IndexAll Proofs.Link Proofs.Witness Proofs.Cause Proofs.CauseSess.
 
 (* The life-cycle invariant (indices exact, parameters sane, every session linked to a live
    subscription which it cannot outlive) holds in every state of every history with increasing block
@@ -106,15 +106,61 @@ Theorem C04_payout_exact : forall s e s' po,
              else pay_q s ∖ {[ (po_next_at po, po_id po) ]}.
 Proof. exact payout_step_spec. Qed.
 
-(* Not yet proved as run-level statements (the implementation-side monitor checks them after every
-   operation, and the correspondence ties the implementation to the model they are stated about):
-   the CAUSE of every demotion/removal seen across a whole operation (owner's request, or deadline
-   reached in the end-blocker), and "a removed session is settled exactly once" at the level of events. *)
-Definition C04_cause_statement : Prop := forall s o s' id sb sb',
+(* The CAUSE of every demotion and removal of a subscription, seen across one whole operation of any
+   kind (any transaction, either block hook with all its loop iterations, governance): a stored
+   subscription goes active -> inactive-pending only by its owner's MsgCancel or in the end-blocker of
+   a block at or after its deadline, and is then pending until exactly now + the delay in force ... *)
+Theorem C04_subscription_demotion_cause : forall s o s' id sb sb',
   life_inv s -> step s o = OOk s' -> subs s !! id = Some sb -> subs s' !! id = Some sb' ->
   sb_status sb = SActive -> sb_status sb' = SPending ->
-  sb_inactive_at sb' = now s' + p_sub_delay (pars s') /\
+  sb_inactive_at sb' = now s + p_sub_delay (pars s) /\
   ((exists from, o = OTx (MSubCancel from id) /\ ta_bytes from = sb_addr sb) \/ (o = OEnd /\ sb_inactive_at sb <= now s)).
+Proof. exact sub_demotion_cause. Qed.
+
+(* ... it is removed only in the end-blocker of a block at or after the end of its pending period, never
+   while it was still active when the operation started ... *)
+Theorem C04_subscription_removal_cause : forall s o s' id sb,
+  life_inv s -> step s o = OOk s' -> subs s !! id = Some sb -> subs s' !! id = None ->
+  o = OEnd /\ sb_status sb = SPending /\ sb_inactive_at sb <= now s.
+Proof. exact sub_removal_cause. Qed.
+
+(* ... and nothing else ever happens to a stored subscription: same status => same record. *)
+Theorem C04_subscription_untouched_otherwise : forall s o s' id sb sb',
+  life_inv s -> step s o = OOk s' -> subs s !! id = Some sb -> subs s' !! id = Some sb' ->
+  sb_status sb' = sb_status sb -> sb' = sb.
+Proof. exact sub_untouched_otherwise. Qed.
+
+(* The same for SESSIONS: a stored session goes active -> inactive-pending only by its owner's MsgEnd, by
+   the cancellation of its subscription by that subscription's owner, or in the end-blocker of a block
+   at or after its own deadline or at or after the deadline of its (active) subscription -- and is then
+   pending until exactly now + the session delay in force ... *)
+Theorem C04_session_demotion_cause : forall s o s' id x x',
+  life_inv s -> step s o = OOk s' -> sessions s !! id = Some x -> sessions s' !! id = Some x' ->
+  ss_status x = SActive -> ss_status x' = SPending ->
+  ss_inactive_at x' = now s + p_sess_delay (pars s) /\
+  ((exists from rating, o = OTx (MSessEnd from id rating) /\ from = canon RAcc (ss_addr x)) \/
+   (exists from sb, o = OTx (MSubCancel from (ss_sub x)) /\ subs s !! ss_sub x = Some sb /\ ta_bytes from = sb_addr sb) \/
+   (o = OEnd /\ (ss_inactive_at x <= now s \/
+                 exists sb, subs s !! ss_sub x = Some sb /\ sb_status sb = SActive /\ sb_inactive_at sb <= now s))).
+Proof. exact sess_demotion_cause. Qed.
+
+(* ... it is removed (the only point at which it is settled: [session_expire_one] calls the settlement hook
+   exactly when it deletes the record) only in the end-blocker of a block at or after the end of its
+   pending period, never while it was still active when the operation started ... *)
+Theorem C04_session_removal_cause : forall s o s' id x,
+  life_inv s -> step s o = OOk s' -> sessions s !! id = Some x -> sessions s' !! id = None ->
+  o = OEnd /\ ss_status x = SPending /\ ss_inactive_at x <= now s.
+Proof. exact sess_removal_cause. Qed.
+
+(* ... and the deadline of a pending session never moves (usage reports refresh only an ACTIVE session). *)
+Theorem C04_pending_session_deadline_fixed : forall s o s' id x x',
+  life_inv s -> step s o = OOk s' -> sessions s !! id = Some x -> sessions s' !! id = Some x' ->
+  ss_status x = SPending -> ss_status x' = SPending /\ ss_inactive_at x' = ss_inactive_at x.
+Proof. exact pending_session_deadline_fixed. Qed.
+
+(* Still checked by the implementation-side monitor only: "settled exactly once" at the level of EVENTS
+   (the model settles in the same step that deletes the record, and removed identifiers never return:
+   C04_removed_stays_removed), and the cause of a NODE's deactivation. *)
 
 (* non-vacuity: the witness history satisfies the hypotheses, and in its last block a session was
    settled and removed exactly at its deadline while the other one lives on *)
@@ -140,3 +186,9 @@ Print Assumptions C04_session_expiry_exact.
 Print Assumptions C04_node_expiry_exact.
 Print Assumptions C04_session_within_subscription.
 Print Assumptions C04_payout_exact.
+Print Assumptions C04_subscription_demotion_cause.
+Print Assumptions C04_subscription_removal_cause.
+Print Assumptions C04_subscription_untouched_otherwise.
+Print Assumptions C04_session_demotion_cause.
+Print Assumptions C04_session_removal_cause.
+Print Assumptions C04_pending_session_deadline_fixed.
